@@ -487,6 +487,7 @@ theorem slice_str {S : Store} {st : St F} (hk : HeapOk S st.heap) (l : Val F) (a
 abbrev PL (s : Ty) : Store → List (Val F) → Prop := fun S vs => ∀ v ∈ vs, VT S v s
 abbrev PP (s : Ty) : Store → List (Key × Val F) → Prop := fun S ps => ∀ p ∈ ps, VT S p.2 s
 abbrev PO : Store → Option (Val F) → Prop := fun S o => ∀ v, o = some v → VT S v .num
+abbrev PA : Store → List (Val F) → Prop := fun S vs => ∀ v ∈ vs, ∃ t, VT S v t
 
 /-- the statement for one step budget -/
 def SoundAt (fuel : Nat) : Prop :=
@@ -496,7 +497,9 @@ def SoundAt (fuel : Nat) : Prop :=
   (∀ (ps : List (Str × Expr F)) st G S s, (∀ p ∈ ps, Typed G p.2 s) → HeapOk S st.heap → EnvOk S G st →
       Good (PP s) S st (evalPairs ops ext prog fuel ps st)) ∧
   (∀ (oe : Option (Expr F)) st G S, (∀ x, oe = some x → Typed G x .num) → HeapOk S st.heap → EnvOk S G st →
-      Good PO S st (evalOpt ops ext prog fuel oe st))
+      Good PO S st (evalOpt ops ext prog fuel oe st)) ∧
+  (∀ (es : List (Expr F)) st G S, (∀ e ∈ es, ∃ t, Typed G e t) → HeapOk S st.heap → EnvOk S G st →
+      Good PA S st (evalList ops ext prog fuel es st))
 
 /-- both operands, then the operator -/
 theorem binary_case (n : Nat) (ih : SoundAt ops ext prog n) {G : Env} {S : Store} {st : St F}
@@ -539,9 +542,9 @@ theorem no_sc {op : Op} (h : isLogic op = false) (tl tr : Ty) : ∀ (S' : Store)
 theorem sound (hx : ExtOk ext) (fuel : Nat) : SoundAt ops ext prog fuel := by
   induction fuel with
   | zero =>
-    refine ⟨?_, ?_, ?_, ?_⟩ <;> intros <;> simp [evalE, evalList, evalPairs, evalOpt, Good, Doc]
+    refine ⟨?_, ?_, ?_, ?_, ?_⟩ <;> intros <;> simp [evalE, evalList, evalPairs, evalOpt, Good, Doc]
   | succ n ih =>
-    refine ⟨?_, ?_, ?_, ?_⟩
+    refine ⟨?_, ?_, ?_, ?_, ?_⟩
     · intro e st0 G S t hty hk0 he0
       unfold evalE
       cases ht : tick st0 with
@@ -704,14 +707,14 @@ theorem sound (hx : ExtOk ext) (fuel : Nat) : SoundAt ops ext prog fuel := by
           | ok left s1 =>
             rw [hq] at h1
             obtain ⟨S1, g1, hk1, hv1, l1, gl1⟩ := h1
-            have h2 := ih.2.2.2 a s1 G S1 ha hk1 ((he.mono g1).same l1 gl1)
+            have h2 := ih.2.2.2.1 a s1 G S1 ha hk1 ((he.mono g1).same l1 gl1)
             simp only
             cases hq2 : evalOpt ops ext prog n a s1 with
             | err o s2 => rw [hq2] at h2; exact h2
             | ok sv s2 =>
               rw [hq2] at h2
               obtain ⟨S2, g2, hk2, hv2, l2, gl2⟩ := h2
-              have h3 := ih.2.2.2 b s2 G S2 hb hk2 ((he.mono (g1.trans g2)).same (l2.trans l1) (gl2.trans gl1))
+              have h3 := ih.2.2.2.1 b s2 G S2 hb hk2 ((he.mono (g1.trans g2)).same (l2.trans l1) (gl2.trans gl1))
               simp only
               cases hq3 : evalOpt ops ext prog n b s2 with
               | err o s3 => rw [hq3] at h3; exact h3
@@ -728,14 +731,14 @@ theorem sound (hx : ExtOk ext) (fuel : Nat) : SoundAt ops ext prog fuel := by
           | ok left s1 =>
             rw [hq] at h1
             obtain ⟨S1, g1, hk1, hv1, l1, gl1⟩ := h1
-            have h2 := ih.2.2.2 a s1 G S1 ha hk1 ((he.mono g1).same l1 gl1)
+            have h2 := ih.2.2.2.1 a s1 G S1 ha hk1 ((he.mono g1).same l1 gl1)
             simp only
             cases hq2 : evalOpt ops ext prog n a s1 with
             | err o s2 => rw [hq2] at h2; exact h2
             | ok sv s2 =>
               rw [hq2] at h2
               obtain ⟨S2, g2, hk2, hv2, l2, gl2⟩ := h2
-              have h3 := ih.2.2.2 b s2 G S2 hb hk2 ((he.mono (g1.trans g2)).same (l2.trans l1) (gl2.trans gl1))
+              have h3 := ih.2.2.2.1 b s2 G S2 hb hk2 ((he.mono (g1.trans g2)).same (l2.trans l1) (gl2.trans gl1))
               simp only
               cases hq3 : evalOpt ops ext prog n b s2 with
               | err o s3 => rw [hq3] at h3; exact h3
@@ -836,6 +839,31 @@ theorem sound (hx : ExtOk ext) (fuel : Nat) : SoundAt ops ext prog fuel := by
           rw [hq] at h1
           obtain ⟨S1, g1, hk1, hv1, l1, gl1⟩ := h1
           exact ⟨S1, g1, hk1, (by intro w hw; cases hw; exact hv1), l1, gl1⟩
+    · -- argument lists: every argument of its own type
+      intro es st G S hes hk he
+      cases es with
+      | nil => exact ⟨S, Grows.refl S, hk, (by intro v hv; cases hv), rfl, rfl⟩
+      | cons e rest =>
+        unfold evalList
+        obtain ⟨t, hty⟩ := hes e List.mem_cons_self
+        have h1 := ih.1 e st G S t hty hk he
+        cases hq : evalE ops ext prog n e st with
+        | err o s1 => rw [hq] at h1; exact h1
+        | ok v s1 =>
+          rw [hq] at h1
+          obtain ⟨S1, g1, hk1, hv1, l1, gl1⟩ := h1
+          have h2 := ih.2.2.2.2 rest s1 G S1 (fun x hx => hes x (List.mem_cons_of_mem _ hx)) hk1 ((he.mono g1).same l1 gl1)
+          simp only
+          cases hq2 : evalList ops ext prog n rest s1 with
+          | err o s2 => rw [hq2] at h2; exact h2
+          | ok vs s2 =>
+            rw [hq2] at h2
+            obtain ⟨S2, g2, hk2, hv2, l2, gl2⟩ := h2
+            refine ⟨S2, g1.trans g2, hk2, ?_, l2.trans l1, gl2.trans gl1⟩
+            intro x hx
+            rcases List.mem_cons.mp hx with h | h
+            · subst h; exact ⟨t, hv1.mono g2⟩
+            · exact hv2 x h
 
 /-- **type soundness, expressions**: a well-typed expression, evaluated for any number of steps in a
 well-typed state, yields a value of its static type in a well-typed state, or ends in a documented
